@@ -326,6 +326,23 @@ pub fn cases(prop: &str, seed: u64, tier: &str) -> Vec<String> {
                 std_cases(&mut out, &mut r, &["HE", "HD", "HW"], if tier == "quick" { 200 } else { 5000 });
             }
             big_cases(&mut out, &mut r, QuerySel { class: false, method: false, lines: false, params: false, all_lines: false, both_files: false }, if tier == "quick" { 2 } else { 10 }, true);
+            {
+                // strings at the 3 -> 4 byte boundary of the LEB128 length prefix (2^21 bytes): written, read back
+                // and looked up through the cache; the model is not run on 2 MiB lines (implementation-only
+                // variants: mapper = cache, self test)
+                let h = |s: &str| hex(s.as_bytes());
+                let sizes: &[usize] = if prop != "C09" { &[] } else if tier == "quick" { &[(1 << 21) + 5] } else { &[(1 << 21) - 1, 1 << 21, (1 << 21) + 5] };
+                for &n in sizes {
+                    let long = "n".repeat(n - 2);
+                    let m = format!("p.{} -> a:\n    void q{}() -> m\n    1:2:void r():5:6 -> m\n", long, long);
+                    out.push(format!("M {} =nomodel", hex(m.as_bytes())));
+                    out.push(format!("KI {}", h("a")));
+                    out.push(format!("TI {} {}", h("a"), h("m")));
+                    out.push(format!("LI {} {} 1 ~", h("a"), h("m")));
+                    out.push(format!("PI {} {} {}", h("a"), h("m"), h("")));
+                    out.push("W".into());
+                }
+            }
             let b = budget(tier, 300, 6000);
             for i in 0..b.mappings {
                 let o = GenOpts { dom: Dom::Representable, max_classes: if i % 25 == 0 { 120 } else { 6 }, noise: true };
